@@ -413,13 +413,28 @@ public:
                 continue;
 
             // If p.first and p.second are symbols and arg_ is
-            // independent of p.second, p.first can be replaced
+            // independent of p.second, p.first can be replaced -- unless
+            // another replacement brings p.second into arg_ as well
+            // (e.g. {x: y, z: y} in Derivative(f(x, z), x)).
             if (is_a<Symbol>(*p.first) and is_a<Symbol>(*p.second)
                 and eq(
                     *x.get_arg()->diff(rcp_static_cast<const Symbol>(p.second)),
                     *zero)) {
-                insert(n, p.first, p.second);
-                continue;
+                bool clash = false;
+                for (const auto &q : subs_dict_) {
+                    if (neq(*q.first, *p.first)
+                        and has_symbol(*q.second,
+                                       *rcp_static_cast<const Symbol>(p.second))
+                        and neq(*x.get_arg()->subs({{q.first, q.second}}),
+                                *x.get_arg())) {
+                        clash = true;
+                        break;
+                    }
+                }
+                if (not clash) {
+                    insert(n, p.first, p.second);
+                    continue;
+                }
             }
             for (const auto &d : x.get_symbols()) {
                 if (is_a<Symbol>(*d)) {
